@@ -2809,3 +2809,54 @@ func lengthTestsAreSignTests(c *Ctx, r *Report, rule string) {
 	r.Hold(rule, r.Key(rule, nil, "sign-tests", ""), token.NoPos, true, fmt.Sprintf("%d comparisons of a fetch length with 0 or -1 are order comparisons (sign tests)", nSign))
 	r.Floor(rule, "sign tests of a fetch length", nSign, 4)
 }
+
+// latestClockOnlyOrdersTheQueue: the latest clock time the fetcher has seen is a priority for its queue, not a
+// criterion: no branch of the fetcher (outside the bookkeeping that maintains it) depends on it. "Too far behind
+// the latest clock to be among the last n" presumes an entry for every clock tick, which a refused append — the
+// clock advances before the access controller is asked — already breaks: a limited load then returns too few
+// entries.
+func latestClockOnlyOrdersTheQueue(c *Ctx, r *Report, rule string) {
+	p := c.P
+	maxF := p.Field("entry", "Fetcher", "maxClock")
+	n := 0
+	for _, fn := range p.Fns {
+		if fn.Body == nil || fn.Decl == nil || fn.Decl.Recv == nil || fn.Pkg.PkgPath != p.pkgPath("entry") {
+			continue
+		}
+		if nt := namedOf(p.TypeOf(fn, fn.Decl.Recv.List[0].Type)); nt == nil || nt.Obj().Name() != "Fetcher" {
+			continue
+		}
+		if fn.Decl.Name.Name == "updateClock" {
+			continue // the bookkeeping itself
+		}
+		sf := p.SSAFunc(fn)
+		if sf == nil {
+			continue
+		}
+		allInstrs(sf, true, func(ins ssa.Instruction) {
+			iff, ok := ins.(*ssa.If)
+			if !ok {
+				return
+			}
+			n++
+			bad := false
+			for x := range backSlice(iff.Cond, nil) {
+				if u, ok := x.(*ssa.UnOp); ok && u.Op == token.MUL {
+					if f, _ := fieldOf(u.X); f == maxF {
+						bad = true
+					}
+				}
+			}
+			pos := iff.Cond.Pos()
+			if !pos.IsValid() {
+				pos = fn.Decl.Pos()
+			}
+			if bad {
+				r.Violate(rule, r.Key(rule, fn, "branch-on-latest-clock", ""), pos,
+					fmt.Sprintf("a branch of %s depends on the latest clock time seen: an entry is refused a place in the result, or its links are not followed, because it lies too far behind that time — that presumes an entry for every clock tick, which one refused append breaks; a limited load then returns fewer entries than asked for and than there are", fn.Name))
+			}
+		})
+	}
+	r.Hold(rule, r.Key(rule, nil, "examined", ""), token.NoPos, true, fmt.Sprintf("%d branches of the fetcher examined", n))
+	r.Floor(rule, "branches of the fetcher", n, 10)
+}
